@@ -46,3 +46,13 @@ package static
 //@ requires s != nil && tableWf(s.peers)
 //@ ensures [found] result1 == nil ==> result0 != nil && id in s.peers && result0.Name == s.peers[id].Name && result0.ID == s.peers[id].ID
 //@ ensures [known] id in s.peers ==> result1 == nil
+
+//@ func (*Service).Suitable
+//@ requires s != nil && tableWf(s.peers)
+//@ requires [some] threshold >= 1
+//@ ensures [len] result1 == nil ==> len(result0) == threshold
+//@ ensures [entries] result1 == nil ==> (forall i int :: 0 <= i && i < len(result0) ==> result0[i] != nil)
+//@ loop #1
+//@ invariant [res] len(res) == threshold && fresh(res) && suitable < threshold
+//@ invariant [filled] forall j int :: 0 <= j && j < suitable ==> res[j] != nil
+//@ invariant [sub] forall id uint64 :: visited()[id] ==> id in s.peers
